@@ -274,7 +274,7 @@ func checkDepthComparatorImpl(c *Ctx, rule string) {
 				}
 			}
 		}
-		floor := map[string]int{"memory": 1, "sqlite": 2, "postgres": 1}[be] // Enqueue and EnqueueBatch may share one admission test
+		floor := 1 // non-vacuity only: Enqueue and EnqueueBatch may share one admission test (in every backend)
 		c.Floor(rule, be+"_depth_tests", n, floor)
 	}
 	// the counters themselves
